@@ -21,7 +21,7 @@ MANIFEST = {
             "bytes are exactly the integer's bytes in the chosen order for all values. Obligations are enumerated from the "
             "macro instances present in MIR, so the level is proof relative to the trusted base.",
     "note": "Trusted: std to/from_{le,be}_bytes semantics (modelled), serde's [u8; N] Serialize/Deserialize = tuple of N u8.",
-    "technique": "static analysis: canonical per-path summaries of all macro instances + sibling cross-check",
+    "technique": "static analysis: semantic MIR summaries of all macro instances (byte-order functions modelled byte-exactly) + sibling cross-check",
 }
 
 TYPES = ["i16", "i32", "i64", "i128", "u16", "u32", "u64", "u128"]
